@@ -37,7 +37,7 @@ func TestMain(m *testing.M) {
 // ---- flags ------------------------------------------------------------------------------------------
 
 const (
-	chainFull = interp.P2SH | interp.DERSIG | interp.CHECKLOCKTIMEVERIFY | interp.CHECKSEQUENCEVERIFY | interp.WITNESS | interp.NULLDUMMY | interp.TAPROOT
+	chainFull       = interp.P2SH | interp.DERSIG | interp.CHECKLOCKTIMEVERIFY | interp.CHECKSEQUENCEVERIFY | interp.WITNESS | interp.NULLDUMMY | interp.TAPROOT
 	discourageFlags = interp.DISCOURAGE_UPGRADABLE_NOPS | interp.DISCOURAGE_UPGRADABLE_WITNESS_PROGRAM | interp.DISCOURAGE_UPGRADABLE_TAPROOT_VERSION |
 		interp.DISCOURAGE_OP_SUCCESS | interp.DISCOURAGE_UPGRADABLE_PUBKEYTYPE
 )
